@@ -394,11 +394,49 @@ func selector(r *rand.Rand, weird bool, class *string) string {
 	return s
 }
 
+// a selector with 9..12 DISTINCT terms (one bit each; past bit 7 the width of the bit arithmetic matters):
+// a conjunction, a disjunction, or eight terms and a choice between the ninth and tenth
+func wide(r *rand.Rand) string {
+	n := 9 + r.Intn(4)
+	ts := make([]string, n)
+	for i := range ts {
+		k := fmt.Sprintf(".k%d", i)
+		switch r.Intn(6) {
+		case 0:
+			ts[i] = k + " != " + quote(r, "v")
+		case 1:
+			ts[i] = k + " " + pick(r, nops) + " " + pick(r, []string{"1", "5", "10"})
+		default:
+			ts[i] = k + " = " + quote(r, pick(r, []string{"v", "w", "200"}))
+		}
+	}
+	switch r.Intn(4) {
+	case 0:
+		return "{" + strings.Join(ts, " && ") + "}"
+	case 1:
+		return "{" + strings.Join(ts, " || ") + "}"
+	case 2:
+		return "{(" + strings.Join(ts[:n-2], " && ") + ") && (" + ts[n-2] + " || " + ts[n-1] + ")}"
+	}
+	q := ts[0]
+	for _, t := range ts[1:] {
+		if r.Intn(2) == 0 {
+			q += " && " + t
+		} else {
+			q += " || " + t
+		}
+	}
+	return "{" + q + "}"
+}
+
 func gen(r *rand.Rand, id int) Case {
 	c := Case{ID: id, Mode: "plan", Calls: 1}
 	weird := r.Intn(8) == 0
 	var q string
-	switch x := r.Intn(20); {
+	switch x := r.Intn(21); {
+	case x == 20:
+		c.Class = "wide"
+		q = wide(r)
 	case x < 11:
 		c.Class = "single"
 		q = selector(r, weird, &c.Class)
